@@ -6,6 +6,7 @@ import (
 	"math/big"
 	"math/rand"
 	"strings"
+	"time"
 
 	"github.com/Oneledger/protocol/action/transfer"
 
@@ -28,10 +29,14 @@ type c18Oracle struct {
 	probes  int
 	// "keeps serving subsequent calls with unchanged behaviour": a twin that never sees the transactions that
 	// were answered with an error code must agree on every later result and hash (the C06 twin, reported here)
-	twin c06Oracle
+	twin   c06Oracle
+	noTwin bool
 }
 
 func (o *c18Oracle) unchanged(e *core.Engine, idx int, st *core.Step, stepErr error) []core.Violation {
+	if o.noTwin {
+		return nil
+	}
 	vs := o.twin.AfterStep(e, idx, st, stepErr)
 	for i := range vs {
 		vs[i].Property = "C18"
@@ -44,6 +49,12 @@ func (o *c18Oracle) unchanged(e *core.Engine, idx int, st *core.Step, stepErr er
 func (o *c18Oracle) Inputs() int { return o.inputs }
 
 func (o *c18Oracle) OnDeath(e *core.Engine, idx int, st *core.Step, deaths []string) []core.Violation {
+	for _, d := range deaths {
+		if strings.Contains(d, "call stalled") {
+			return []core.Violation{{Property: "C18", Oracle: "keeps-serving", Sig: "app-stalled:" + c18Suspects(st),
+				Msg: fmt.Sprintf("an application call did not return while processing step %d (%s): %s; inputs of the step: %v", idx, st.Kind, strings.Join(deaths, "; "), c18Labels(st))}}
+		}
+	}
 	return []core.Violation{{Property: "C18", Oracle: "keeps-serving", Sig: "app-died:" + c18Suspects(st),
 		Msg: fmt.Sprintf("the application panicked out or shut itself down while processing step %d (%s): %s; inputs of the step: %v", idx, st.Kind, strings.Join(deaths, "; "), c18Labels(st))}}
 }
@@ -123,6 +134,11 @@ func init() {
 			su.Sess.M["olvm-basefee"] = true
 			su.Sess.M["olvm-no-gaslimit"] = true // the twin's running gas total legitimately differs
 			gen.OlvmNoGaslimit = true
+			if rng.Intn(4) == 0 {
+				// BLOCKHASH reads the node's block store, which the raw-mode twin does not have: these runs go without twin
+				su.Sess.M["olvm-blockhash"] = true
+				su.Extra = []byte(`{"notwin":true}`)
+			}
 			su.Replicas = append(su.Replicas, core.ReplicaConf{Identity: "x0", Recent: 10, Every: 100, Cycles: 10, WitnessInitEarly: true})
 			su.Gens = allGens(rng)
 			su.Gens = append(su.Gens, gen.ByName("hostile-values", "garbage", "impersonator")...)
@@ -153,6 +169,9 @@ func init() {
 			}
 			return su
 		},
-		MakeOracle: func(e *core.Engine, tr *core.Trace) Oracle { return &c18Oracle{} },
+		MakeOracle: func(e *core.Engine, tr *core.Trace) Oracle {
+			core.StallLimit = 30 * time.Second
+			return &c18Oracle{noTwin: strings.Contains(string(tr.Extra), `"notwin":true`)}
+		},
 	})
 }
